@@ -69,9 +69,9 @@ theorem membersSpec_refine (ms : List Node) : membersSpec (refineMembers ms) = m
 /-- one member, read by the specification -/
 def memberSpec (m : Node) : Option PropSpec :=
   match m with
-  | .mk .tsPropSig [_, _, opt] [key, ann] => (specKey key).map fun k => { key := k, optional := opt == "true", ty := typeAnnInner ann }
-  | .mk .tsMethodSig [_, opt] (key :: _) => (specKey key).map fun k => { key := k, optional := opt == "true", ty := none, isMethod := true }
-  | .mk .tsGetterSig _ [key, ann] => (specKey key).map fun k => { key := k, optional := false, ty := typeAnnInner ann }
+  | .mk .tsPropSig [_, comp, opt] [key, ann] => (specKeyC comp key).map fun k => { key := k, optional := opt == "true", ty := typeAnnInner ann }
+  | .mk .tsMethodSig [comp, opt] (key :: _) => (specKeyC comp key).map fun k => { key := k, optional := opt == "true", ty := none, isMethod := true }
+  | .mk .tsGetterSig as [key, ann] => (specKeyC (as.headD "false") key).map fun k => { key := k, optional := false, ty := typeAnnInner ann }
   | _ => none
 
 theorem membersSpec_eq (ms : List Node) : membersSpec ms = ms.filterMap memberSpec := by
@@ -85,7 +85,7 @@ theorem memberSpec_setOptional (v : Bool) (m : Node) :
   cases k <;> try (simp [setOptional, memberSpec]; done)
   case tsPropSig =>
     match as, ks with
-    | [ro, comp, opt], [key, ann] => cases v <;> cases h : specKey key <;> simp [setOptional, memberSpec, h]
+    | [ro, comp, opt], [key, ann] => cases v <;> cases h : specKeyC comp key <;> simp [setOptional, memberSpec, h]
     | [], _ => simp [setOptional, memberSpec]
     | [_], _ => simp [setOptional, memberSpec]
     | [_, _], _ => simp [setOptional, memberSpec]
@@ -95,7 +95,7 @@ theorem memberSpec_setOptional (v : Bool) (m : Node) :
     | [_, _, _], _ :: _ :: _ :: _ => simp [setOptional, memberSpec]
   case tsMethodSig =>
     match as, ks with
-    | [comp, opt], key :: rest => cases v <;> cases h : specKey key <;> simp [setOptional, memberSpec, h]
+    | [comp, opt], key :: rest => cases v <;> cases h : specKeyC comp key <;> simp [setOptional, memberSpec, h]
     | [], _ => simp [setOptional, memberSpec]
     | [_], _ => simp [setOptional, memberSpec]
     | _ :: _ :: _ :: _, _ => simp [setOptional, memberSpec]
@@ -103,12 +103,12 @@ theorem memberSpec_setOptional (v : Bool) (m : Node) :
   case tsGetterSig =>
     cases v
     · match ks with
-      | [key, ann] => cases h : specKey key <;> simp [setOptional, memberSpec, h]
+      | [key, ann] => simp [setOptional, memberSpec]; cases specKeyC (as.head?.getD "false") key <;> simp
       | [] => simp [setOptional, memberSpec]
       | [_] => simp [setOptional, memberSpec]
       | _ :: _ :: _ :: _ => simp [setOptional, memberSpec]
     · match ks with
-      | [key, ann] => cases h : specKey key <;> simp [setOptional, memberSpec, h]
+      | [key, ann] => simp [setOptional, memberSpec]; cases specKeyC (as.head?.getD "false") key <;> simp
       | [] => simp [setOptional, memberSpec]
       | [_] => simp [setOptional, memberSpec]
       | _ :: _ :: _ :: _ => simp [setOptional, memberSpec]
@@ -133,8 +133,8 @@ theorem memberKeyName_of_spec (m : Node) (p : PropSpec) (h : memberSpec m = some
       simp only [memberSpec, Option.map_eq_some_iff] at h
       obtain ⟨kk, hk, rfl⟩ := h
       obtain ⟨kind, kas, kks⟩ := key
-      cases kind <;> try (simp [specKey] at hk; done)
-      all_goals (cases kas <;> simp [specKey, nIdentName, nIdent] at hk <;> (try subst hk) <;> simp [memberKeyName, pickName])
+      cases kind <;> try (simp [specKeyC, specKey] at hk; done)
+      all_goals (cases kas <;> simp [specKeyC, specKey, nIdentName, nIdent] at hk <;> (try (split at hk <;> simp at hk)) <;> (try subst hk) <;> simp_all [memberKeyName, pickName])
     | [], _ => simp [memberSpec] at h
     | [_], _ => simp [memberSpec] at h
     | [_, _], _ => simp [memberSpec] at h
@@ -148,8 +148,8 @@ theorem memberKeyName_of_spec (m : Node) (p : PropSpec) (h : memberSpec m = some
       simp only [memberSpec, Option.map_eq_some_iff] at h
       obtain ⟨kk, hk, rfl⟩ := h
       obtain ⟨kind, kas, kks⟩ := key
-      cases kind <;> try (simp [specKey] at hk; done)
-      all_goals (cases kas <;> simp [specKey, nIdentName, nIdent] at hk <;> (try subst hk) <;> simp [memberKeyName, pickName])
+      cases kind <;> try (simp [specKeyC, specKey] at hk; done)
+      all_goals (cases kas <;> simp [specKeyC, specKey, nIdentName, nIdent] at hk <;> (try (split at hk <;> simp at hk)) <;> (try subst hk) <;> simp_all [memberKeyName, pickName])
     | [], _ => simp [memberSpec] at h
     | [_], _ => simp [memberSpec] at h
     | _ :: _ :: _ :: _, _ => simp [memberSpec] at h
@@ -160,8 +160,8 @@ theorem memberKeyName_of_spec (m : Node) (p : PropSpec) (h : memberSpec m = some
       simp only [memberSpec, Option.map_eq_some_iff] at h
       obtain ⟨kk, hk, rfl⟩ := h
       obtain ⟨kind, kas, kks⟩ := key
-      cases kind <;> try (simp [specKey] at hk; done)
-      all_goals (cases kas <;> simp [specKey, nIdentName, nIdent] at hk <;> (try subst hk) <;> simp [memberKeyName, pickName])
+      cases kind <;> try (simp [specKeyC, specKey] at hk; done)
+      all_goals (cases kas <;> simp [specKeyC, specKey, nIdentName, nIdent] at hk <;> (try (split at hk <;> simp at hk)) <;> (try subst hk) <;> simp_all [memberKeyName, pickName])
     | [] => simp [memberSpec] at h
     | [_] => simp [memberSpec] at h
     | _ :: _ :: _ :: _ => simp [memberSpec] at h
